@@ -166,11 +166,12 @@ func runC08(tier string) int {
 	r.Assume("an inline body must be emitted exactly like 'script(local) <name> { body }' (differential; C01 decides the behaviour of script statements)",
 		"inline names are <map>_<TYPE> and <map>_<TYPE>_<index>; texts inside bodies are distinct per entry so that no label is shared across entries")
 	return r.Finish(r.Get("evaluations"), r.Get("nontrivial"),
-		"every mapscripts statement with <= N entries over {plain, inline with 8 body kinds, table with <= T entries over plain / inline entries with simple and multi-token var/value} x scope {none, global, local} x optimize on/off, incl. the empty statement and empty tables; header, table and inline-script blocks are compared with the generator's expectation and with the standalone compilation of the same body; non-trivial = the statement has a table and an inline entry")
+		"every mapscripts statement with <= N entries over {plain, inline with 8 body kinds, table with <= T entries over plain / inline entries with simple and multi-token var/value (the multi-token ones mention constants)} x scope {none, global, local} x optimize on/off, incl. the empty statement and empty tables; header, table and inline-script blocks are compared with the generator's expectation and with the standalone compilation of the same body; non-trivial = the statement has a table and an inline entry")
 }
 
 func c08Eval(r *harness.Run, entries []c08Entry, scope string, opt bool, sw map[string]string) {
 	var sb strings.Builder
+	sb.WriteString("const KC = 1\nconst KD = 2\n")
 	sb.WriteString("mapscripts" + scope + " M {\n")
 	var headPlain, headTab []string
 	type inl struct{ name, body string }
@@ -202,8 +203,9 @@ func c08Eval(r *harness.Run, entries []c08Entry, scope string, opt bool, sw map[
 			for j, te := range e.table {
 				v, n, ev, en := "VAR_"+T, fmt.Sprint(j), "VAR_"+T, fmt.Sprint(j)
 				if te.form == 1 {
-					v, ev = "VAR_"+T+" + ( 1 )", "VAR_"+T+" + ( 1 )"
-					n, en = fmt.Sprintf("%d * 2", j), fmt.Sprintf("%d * 2", j)
+					// multi-token var and value that mention constants (const KC = 1, const KD = 2)
+					v, ev = "VAR_"+T+" + ( KC )", "VAR_"+T+" + ( 1 )"
+					n, en = fmt.Sprintf("%d * KD", j), fmt.Sprintf("%d * 2", j)
 				}
 				if te.inline {
 					name := fmt.Sprintf("M_%s_%d", T, j)
